@@ -27,14 +27,18 @@ import (
 )
 
 type reuseSession struct {
-	sid      string
-	opener   string // peer lib
-	taker    string // a session the peer opens is taken with: accept / expect (Listener.Expect for exactly this peer and sid)
-	carrier  string // iq message
-	packets  []int  // sizes of the peer's data packets
-	writes   []int  // sizes of the library's writes (each flushed)
-	closer   string // peer lib lib-refused (the peer answers the library's <close/> with an error)
-	staleOps []int  // before the peer's data: indexes (mod #finished) of finished connections to Close() again
+	sid     string
+	opener  string // peer lib
+	taker   string // a session the peer opens is taken with: accept / expect (Listener.Expect for exactly this peer and sid)
+	carrier string // iq message
+	packets []int  // sizes of the peer's data packets
+	writes  []int  // sizes of the library's writes (each flushed)
+	closer  string // peer lib lib-refused (the peer answers the library's <close/> with an error)
+	// the application reads what this session delivered only later: after the
+	// next session has been opened and has received its data (peer-closed
+	// sessions only)
+	lateRead bool
+	staleOps []int // before the peer's data: indexes (mod #finished) of finished connections to Close() again
 }
 
 type reuseCase struct{ sessions []reuseSession }
@@ -42,7 +46,7 @@ type reuseCase struct{ sessions []reuseSession }
 func (c reuseCase) String() string {
 	var sb strings.Builder
 	for i, s := range c.sessions {
-		fmt.Fprintf(&sb, "\n  session %d: sid=%q opened-by=%s taken-with=%s carrier=%s close-again-on-finished=%v peer-packets=%v library-writes=%v closed-by=%s", i, s.sid, s.opener, s.taker, s.carrier, s.staleOps, s.packets, s.writes, s.closer)
+		fmt.Fprintf(&sb, "\n  session %d: sid=%q opened-by=%s taken-with=%s carrier=%s close-again-on-finished=%v peer-packets=%v library-writes=%v closed-by=%s read-only-after-the-next-session-got-its-data=%v", i, s.sid, s.opener, s.taker, s.carrier, s.staleOps, s.packets, s.writes, s.closer, s.lateRead)
 	}
 	return sb.String()
 }
@@ -72,6 +76,7 @@ func genReuse(t *rapid.T) reuseCase {
 				s.staleOps = append(s.staleOps, rapid.IntRange(0, 7).Draw(t, "stale"))
 			}
 		}
+		s.lateRead = s.closer == "peer" && rapid.IntRange(0, 2).Draw(t, "lateRead") == 0
 		c.sessions = append(c.sessions, s)
 	}
 	return c
@@ -149,6 +154,7 @@ func checkReuse(t interface {
 	}
 
 	var finished []net.Conn
+	var lateReads []func() bool
 	for si, s := range c.sessions {
 		// ---- open
 		var conn net.Conn
@@ -239,6 +245,13 @@ func checkReuse(t interface {
 				tracef("session %d: peer data message seq=%d (%d bytes) -> accepted", si, k, n)
 			}
 		}
+		// ---- readers of earlier sessions that come only now
+		for _, f := range lateReads {
+			if !f() {
+				return
+			}
+		}
+		lateReads = nil
 		// ---- library -> peer
 		var wrote []byte
 		for k, n := range s.writes {
@@ -295,23 +308,38 @@ func checkReuse(t interface {
 		}
 		// ---- what the library's reader gets: everything, then end-of-file (a
 		// reader on the side that closed may get an error instead)
-		var got []byte
-		out, ok := call(fmt.Sprintf("session %d: read to the end", si), func() string {
-			b, err := io.ReadAll(conn)
-			got = b
-			return fmt.Sprintf("%d bytes err=%v", len(b), err)
-		})
-		if !ok {
+		si, s, conn, want := si, s, conn, want
+		readAll := func() bool {
+			var got []byte
+			out, ok := call(fmt.Sprintf("session %d: read to the end", si), func() string {
+				b, err := io.ReadAll(conn)
+				got = b
+				return fmt.Sprintf("%d bytes err=%v", len(b), err)
+			})
+			if !ok {
+				return false
+			}
+			if s.closer == "peer" && (!bytes.Equal(got, want) || !strings.HasSuffix(out, "err=<nil>")) {
+				fail("session %d (sid %q): the peer sent %x and closed; the reader got %x (%s)", si, s.sid, want, got, out)
+			}
+			if s.closer != "peer" && !bytes.HasPrefix(want, got) {
+				fail("session %d (sid %q): the peer sent %x; the reader got %x, which is not a prefix of it", si, s.sid, want, got)
+			}
+			return true
+		}
+		if s.lateRead && s.closer == "peer" {
+			lateReads = append(lateReads, readAll)
+			ev.Class("reuse:read-after-the-next-session-got-data")
+		} else if !readAll() {
 			return
-		}
-		if s.closer == "peer" && (!bytes.Equal(got, want) || !strings.HasSuffix(out, "err=<nil>")) {
-			fail("session %d (sid %q): the peer sent %x and closed; the reader got %x (%s)", si, s.sid, want, got, out)
-		}
-		if s.closer != "peer" && !bytes.HasPrefix(want, got) {
-			fail("session %d (sid %q): the peer sent %x; the reader got %x, which is not a prefix of it", si, s.sid, want, got)
 		}
 		_ = wrote
 		finished = append(finished, conn)
+	}
+	for _, f := range lateReads {
+		if !f() {
+			return
+		}
 	}
 	finish()
 	if pn := sv.Panic(); pn != "" {
